@@ -135,6 +135,9 @@ def run(prop, tier, seed, replay, clauses, n_quick, n_thorough, rule, gen_kw=Non
         q = V.rename_variant(plans[i], rng, pool=V.ADVERSARIAL_NAMES[0] if rng.random() < 0.6 else None)
         q = V.placement_variant(V.declorder_variant(q, rng), rng)
         plans[i] = q
+    for pl in plans:
+        if pl.mode == "trait" and rng.random() < 0.08:
+            pl.header_qual = "self::"      # blocks naming the invocation's trait through a qualified path (D46)
     evs = PC.evaluate(so, plans)
     known = {f["id"] for f in C.findings_for(prop)}
     shape_cases = []
